@@ -144,6 +144,21 @@ def run(ctx: Any, prog: Program) -> None:
               'renames its partial temp file over the destination - an abandoned write must leave the previous contents') if bad else 'no finalizer commits', func='AtomicWriter', text='only a completed with-body commits')
     if len({id(n.stmt) for n in replace_nodes}) != 1:
         raise AnalysisError(f'AtomicWriter.__exit__: expected exactly one replace() statement, found {len(replace_nodes)}')
+    # the close must have SUCCEEDED: closing flushes the last buffered data, and an OSError from it means the temp file is incomplete.
+    # A handler around the close that does not re-raise lets __exit__ go on to rename the truncated file over the destination.
+    for cn in close_nodes:
+        cur_ = core.parents.get(cn.stmt)
+        child_ = cn.stmt
+        while cur_ is not None and cur_ is not ex:
+            if isinstance(cur_, ast.Try) and child_ in cur_.body:
+                for h in cur_.handlers:
+                    names_ = [None] if h.type is None else [(dotted(e) or '').split('.')[-1] for e in (h.type.elts if isinstance(h.type, ast.Tuple) else [h.type])]
+                    catches_io = any(nm in (None, 'OSError', 'IOError', 'Exception', 'BaseException', 'EnvironmentError') for nm in names_)
+                    reraises = bool(h.body) and isinstance(h.body[-1], ast.Raise)
+                    if catches_io:
+                        ctx.check('C12.W2', reraises, core, h, f'the error of closing the temp file (its final flush) is caught by `except {ast.unparse(h.type) if h.type else ""}:` and not re-raised: __exit__ then sees no exception and '
+                                  'renames a truncated temp file over the destination (a second close() of an already closed file object is a silent no-op)', func='AtomicWriter.__exit__', text='a failed close is not swallowed')
+            child_, cur_ = cur_, core.parents.get(cur_)
     # W2a: on every path to replace, either the `self.temp is not None` test was false or a close node was passed
     temp_tests = [n for n in g.nodes if n.kind == 'test' and 'self.temp is not None' in ast.unparse(n.stmt)]
     removed = {n.id for n in close_nodes}
@@ -230,8 +245,22 @@ def run(ctx: Any, prog: Program) -> None:
         if isinstance(mode, ast.BinOp) and isinstance(mode.op, ast.Add):
             l, r = resolve_modes(fn, mode.left), resolve_modes(fn, mode.right)
             return None if l is None or r is None else [a + b for a in l for b in r]
+        if isinstance(mode, ast.IfExp):
+            l, r = resolve_modes(fn, mode.body), resolve_modes(fn, mode.orelse)
+            return None if l is None or r is None else l + r
         if isinstance(mode, ast.Name):
             params = [a.arg for a in fn.args.args]
+            if mode.id not in params:
+                # a local: every value it is assigned anywhere in the function (which one is taken may depend on the file system)
+                defs_ = [a.value for a in ast.walk(fn) if isinstance(a, ast.Assign) and any(isinstance(t, ast.Name) and t.id == mode.id for t in a.targets)]
+                if defs_:
+                    out_: List[str] = []
+                    for d in defs_:
+                        r_ = resolve_modes(fn, d) if not (isinstance(d, ast.Name) and d.id == mode.id) else []
+                        if r_ is None:
+                            return None
+                        out_ += r_
+                    return out_ or None
             if mode.id in params:
                 idx = params.index(mode.id) - 1
                 vals: List[str] = []
@@ -282,7 +311,8 @@ def run(ctx: Any, prog: Program) -> None:
             ctx.check('C12.W4', False, core, c, f'`{ast.unparse(c)[:60]}` opens the destination itself: the old content is destroyed before the new one is complete', func=f'AtomicWriter.{getattr(fnx, "name", "?")}', text='open target is the temp path')
         else:
             ctx.shape('C12.W4', False, core, c, f'open target `{tgt}` not recognised', func=f'AtomicWriter.{getattr(fnx, "name", "?")}', text='open target is the temp path')
-    tries = [n for n in walk_no_nested(mt) if isinstance(n, ast.Try)]
+    # the try statements that contain the open() of the temp file (a read-only probe in its own try is a different matter)
+    tries = [n for n in walk_no_nested(mt) if isinstance(n, ast.Try) and any(isinstance(c, ast.Call) and isinstance(c.func, ast.Attribute) and c.func.attr == 'open' for b in n.body for c in ast.walk(b))]
     ok = len(tries) == 1 and len(tries[0].handlers) == 1 and dotted(tries[0].handlers[0].type) == 'FileExistsError'
     ctx.check('C12.W4', ok, core, tries[0] if tries else mt, 'the name search may only continue on FileExistsError (any other error must propagate)', func='AtomicWriter.make_tempfile', text='retry only on FileExistsError')
     first_if = [n for n in mt.body if isinstance(n, ast.If)]
@@ -354,6 +384,8 @@ def run(ctx: Any, prog: Program) -> None:
 
 
 MUTANTS = [
+    {'id': 'close_error_swallowed', 'file': '__init__.py', 'find': "                temp.__exit__(exc_type, exc_value, tback)\n", 'replace': "                try:\n                    temp.__exit__(exc_type, exc_value, tback)\n                except OSError:\n                    temp.close()\n", 'expect': 'C12.W2'},
+    {'id': 'empty_temp_file_taken_over', 'file': '__init__.py', 'find': "                if self.is_bytes:  # type checkers can't narrow self from this!\n                    self.temp = self._temp_name.open('xb')  # type: ignore", 'replace': "                mode = 'w' if self._temp_name.exists() and self._temp_name.stat().st_size == 0 else 'x'\n                if self.is_bytes:  # type checkers can't narrow self from this!\n                    self.temp = self._temp_name.open(mode + 'b')  # type: ignore", 'expect': 'C12.W4'},
     {'id': 'commit_through_shutil_move', 'file': '__init__.py', 'find': "                self._temp_name.replace(self.filename)\n                committed = True", 'replace': "                import shutil\n                shutil.move(self._temp_name, self.filename)\n                committed = True", 'expect': 'C12.W2'},
     {'id': 'finalizer_commits', 'file': '__init__.py', 'find': "        return None  # Don't cancel the exception.\n", 'replace': "        return None  # Don't cancel the exception.\n\n    def close(self) -> None:\n        if self.temp is not None:\n            self.__exit__(None, None, None)\n\n    def __del__(self) -> None:\n        if getattr(self, 'temp', None) is not None:\n            self.close()\n", 'expect': 'C12.W2'},
     {'id': 'explicit_close_only', 'file': '__init__.py', 'find': "        return None  # Don't cancel the exception.\n", 'replace': "        return None  # Don't cancel the exception.\n\n    def close(self) -> None:\n        if self.temp is not None:\n            self.__exit__(None, None, None)\n", 'expect': None},
